@@ -3,7 +3,7 @@ import itertools
 
 import numpy as np
 
-from checks.common import AFF, INF, aff, farr, iarr, scale_of, call_warn, pair_cases, is_num
+from checks.common import AFF, INF, aff, farr, iarr, scale_of, call_warn, pair_cases, is_num, medium_diagram
 from mc.enumerate import lattice_points, distinct_permutations
 from mc.seams import HKSeam
 from oracles import matching as om
@@ -37,22 +37,6 @@ def bounds(tier):
 
 
 MEDIUM = {"quick": {"n": [4, 5, 6, 8, 10, 12], "k": 2}, "thorough": {"n": [4, 5, 6, 7, 8, 10, 12, 15, 20], "k": 5}}
-
-
-def medium_diagram(n, k, lattice):
-    """Deterministic medium-size diagrams (Weyl sequence); `lattice` rounds to half-integers (many ties)."""
-    import math
-
-    phi = (math.sqrt(5.0) - 1.0) / 2.0
-    s2 = math.sqrt(2.0) - 1.0
-    pts = []
-    for i in range(1, n + 1):
-        b = (((i + 11 * k) * phi) % 1.0) * 12.0
-        p = (((i + 7 * k) * s2) % 1.0) * 8.0 + 0.25
-        if lattice:
-            b, p = round(b * 2) / 2.0, max(0.5, round(p * 2) / 2.0)
-        pts.append([b, b + p])
-    return pts
 
 
 def medium_members(tier):
